@@ -305,6 +305,16 @@ func genTable(r *rand.Rand) *caseSpec {
 		}
 		c.stages = append(c.stages, st)
 	}
+	rej := func() outcome {
+		o := outcome{kind: oReject}
+		if r.IntN(4) == 0 {
+			o.kind = oBannerReject
+		}
+		if r.IntN(3) == 0 {
+			o.perm = genPerm(r, c.remote) // Permissions next to an error: must be ignored
+		}
+		return o
+	}
 	good := func() outcome {
 		switch weighted(r, 55, 30, 15) {
 		case 0:
@@ -316,22 +326,23 @@ func genTable(r *rand.Rand) *caseSpec {
 			}
 			return o
 		}
-		if r.IntN(4) == 0 {
-			return outcome{kind: oBannerReject}
-		}
-		return outcome{kind: oReject}
+		return rej()
 	}
 	for s, st := range c.stages {
 		for _, u := range users {
 			c.set(s, "pw", u, "pwA", good())
+			c.set(s, "pw", u, "pwB", rej())
 			c.set(s, "kbd", u, kbdGood(st), good())
+			if n := len(kbdGood(st)); n > 0 {
+				c.set(s, "kbd", u, strings.Repeat("B", n), rej())
+			}
 			for _, k := range pool {
 				var o outcome
 				switch weighted(r, 45, 30, 25) {
 				case 0:
 					o = outcome{kind: oAccept, perm: genPerm(r, c.remote)}
 				case 1:
-					o = outcome{kind: oReject}
+					o = rej()
 				default:
 					o = outcome{kind: oPartial, next: 1 + r.IntN(2)}
 					if c.vpkc != vAbsent && r.IntN(100) >= 4 {
@@ -348,7 +359,7 @@ func genTable(r *rand.Rand) *caseSpec {
 		case 0:
 			c.set(-1, "none", u, "", outcome{kind: oAccept, perm: genPerm(r, c.remote)})
 		case 1:
-			c.set(-1, "none", u, "", outcome{kind: oReject})
+			c.set(-1, "none", u, "", rej())
 		default:
 			c.set(-1, "none", u, "", outcome{kind: oPartial, next: 1 + r.IntN(2)})
 		}
